@@ -17,7 +17,7 @@ RangeCases == {[law |-> "range", s |-> s, e |-> e, inc |-> inc] : s \in -4..4, e
 (* JsonMerge: right wins, keys of both, nothing else; shallow *)
 MVals == {JNum(0), JNum(1), JObj(<<A>>, <<JNum(0)>>)}
 MObjs == {EmptyObj} \cup {JObj(<<k>>, <<v>>) : k \in {A, B, Cc}, v \in MVals}
-         \cup {JObj(<<k, l>>, <<v, w>>) : k \in {A, B}, l \in {B, Cc} \ {k}, v \in MVals, w \in MVals}
+         \cup {JObj(kl, <<v, w>>) : kl \in {<<A, B>>, <<B, A>>, <<A, Cc>>, <<B, Cc>>}, v \in MVals, w \in MVals}
 MergeCases == {[law |-> "merge", a |-> a, b |-> b] : a \in MObjs, b \in MObjs}
 (* ArrayUnique: idempotent, order preserving, first occurrences, nothing lost *)
 UniqCases == {[law |-> "unique", a |-> a] : a \in SeqsUpTo({JNum(0), JNum(1), JBool(TRUE), CStr(A)}, 4)}
